@@ -20,7 +20,7 @@ Lean: validate-then-mutate ordering decided over the regenerated update() table;
 leaves the state untouched" for the class models; index-kernel semantics, `idx_in_range_*` for all
 inputs on the typed models, and decided obligations over the regenerated inventory."""
 from __future__ import annotations
-import json, os, select, subprocess, sys, time
+import json, os, queue, subprocess, sys, threading, time
 from ..common import Report, VERIF, REPO, budget
 from ..translators import atomicity as atom_tr
 from ..translators import indexsites as index_tr
@@ -166,24 +166,33 @@ def drive(rep: Report, seed: int, tier: str, deadline: float):
         last = time.time()
         finished = False
         cur = start
+        # the worker's lines are pumped into a queue by a reader thread: a `start` line that is already sitting in the pipe
+        # buffer is seen at once, so a case that then hangs is attributed to the case in flight (select() on the raw fd
+        # does not see lines that the text layer has already buffered)
+        lines_q: queue.Queue = queue.Queue()
+
+        def pump(stream=p.stdout, q=lines_q):
+            try:
+                for ln in stream:
+                    q.put(ln)
+            except ValueError:
+                pass
+            q.put(None)
+        threading.Thread(target=pump, daemon=True).start()
         while True:
             if time.time() > deadline:
                 p.kill(); rep.notes.append("budget exhausted before the catalogue was complete"); return
-            r, _, _ = select.select([p.stdout], [], [], 1.0)
-            if not r:
-                if p.poll() is not None:
-                    break
+            try:
+                line = lines_q.get(timeout=1.0)
+            except queue.Empty:
                 if inflight is not None and time.time() - last > CASE_TIMEOUT:
                     p.kill()
                     rep.violation(f"C14|{inflight[1]}|{inflight[3]}|hang", f"{inflight[1]} fault {inflight[3]}: no answer within {CASE_TIMEOUT}s",
                                   {"kind": "fault-case", "case": inflight, "recipe": describe_case(inflight), "seed": seed, "tier": tier})
                     break
                 continue
-            line = p.stdout.readline()
-            if not line:
-                if p.poll() is not None:
-                    break
-                continue
+            if line is None:            # end of the worker's output: it finished or died
+                break
             last = time.time()
             try:
                 d = json.loads(line)
